@@ -1,5 +1,6 @@
 /- Atto/Driver/Ops.lean — op dispatch. -/
 import Atto.Driver.Codec
+import Atto.Driver.SendOp
 namespace Atto.Driver
 open Atto
 
@@ -35,6 +36,7 @@ def opResp (args : List String) : String :=
 def runLine (line : String) : String :=
   match line.trimAscii.toString.splitOn " " with
   | "resp" :: args => opResp args
+  | "send" :: args => opSend args
   | _ => "bad-op"
 
 end Atto.Driver
